@@ -11,6 +11,14 @@ pub fn base_sources() -> Vec<(&'static str, &'static str)> {
         ("lines", "Hello.\nSecond line. # t1\nThird <>\nline glued. # t2 # t3\n-> END\n"),
         // the same `= ()` statement runs once over a list and once over a number: whatever the
         // first execution leaves behind in the story's content shows in the second
+        // values whose saved form can lose something: an emptied list that remembers its LIST, a
+        // non-finite float, a list waiting on the evaluation stack while a function prints lines,
+        // the "function has printed" mark of a call frame, negative zero equal to a default
+        ("save-emptied-list", "LIST L = a, b, c\nVAR l = (a)\n~ l -= a\nfirst\nsecond {LIST_ALL(l)} / {LIST_INVERT(l)}\n-> k\n=== k ===\n~ temp t = (b)\n~ t -= b\nin k\nthird {LIST_ALL(t)} / {LIST_INVERT(t)}\n-> END\n"),
+        ("save-float-inf", "VAR x = 100000000000000000000.0\n~ x = x * x\nfirst {x}\nsecond {x}\n~ x = 0.0 - x\nthird {x}\nfourth {x}\n-> END\n"),
+        ("save-evalstack-list", "LIST L = a, b, c\nVAR l = (a)\n~ temp y = l + f()\nresult {y}\n-> END\n=== function f() ===\nline one\nline two\n~ return 1\n=== plain ===\nplain\n-> END\n"),
+        ("save-fn-blank-line", "VAR e = \"\"\n~ f()\nafter\n-> END\n=== function f() ===\nline one\n{e}\nline three\n"),
+        ("save-neg-zero", "VAR x = 0.0\n~ x = x * -1.0\nfirst {x}\nsecond {x}\n-> END\n"),
         ("list-reassign-a", "LIST L = a, b\nVAR y = a\n-> top\n=== top ===\n~ y = ()\nAll:{LIST_ALL(y)}.\n~ y = 0\n+ [again] -> top\n* [stop] -> END\n"),
         ("list-reassign-b", "LIST L = a, b\nVAR y = 0\n-> top\n=== top ===\n~ y = ()\nAll:{LIST_ALL(y)}.\n~ y = a\n+ [again] -> top\n* [stop] -> END\n"),
         // pauses while a forked thread is still running (two threads on the call stack between
